@@ -215,6 +215,20 @@ def stepModel (d : DState) (ws : List String) (implOut : List String) : DState Ã
           let d := grant { d with c := c }
           (d, obs d (coutStr o))
     | _, _ => bad
+  | ["cancel", r] =>
+    -- the caller's context is cancelled while the request is in flight: the handler does not look at it,
+    -- nothing changes and nothing is answered (the observation is the request's current position)
+    match r.toNat? with
+    | some r =>
+      match d.ids[r]?.bind (fun k => d.c.reqs[k]?) with
+      | none => bad
+      | some x =>
+        match x.phase with
+        | .done _ => bad
+        | .waiting => (d, obs d "blocked")
+        | .atLoad => (d, obs d "parked-load")
+        | .atSave _ => (d, obs d "parked-save")
+    | none => bad
   | ["set", v] =>
     match v.toNat? with
     | some v =>
